@@ -65,6 +65,27 @@ def run(ctx):
     # token decoders: generated JSON / CBOR documents and mutants (own random stream: the other jobs stay as they were)
     trng = random.Random(ctx.seed * 7919 + 9)
     tokdocs = tokgen.write_docs(ctx.subdir("c09-tokdocs"), trng, 16 if thorough else 8, 12 if thorough else 6, mutants=1, large=thorough)
+    # spec-shaped inputs that the corpus and random mutation do not contain:
+    #  - baseline JPEGs (written with lib/lowleveljpeg, quantisation factors 1) whose blocks have a single non-zero AC
+    #    coefficient at each of the 63 positions, or one non-zero row / column: every "all other coefficients are zero"
+    #    shortcut of an inverse DCT is taken, in the SIMD and in the portable variant (encoder-produced, small
+    #    coefficients: inside the documented agreement range);
+    #  - DEFLATE streams with degenerate Huffman trees (one one-bit distance code, none at all), valid ones and ones that
+    #    use the unassigned code: the reaction to the unassigned code may not depend on what a table slot held before.
+    jr = ctx.go_build("./cmd/jpegreplay")
+    cr = ctx.go_build("./cmd/cutreplay")
+    sdir, ddir = os.path.join(mdir, "sparse"), os.path.join(mdir, "degenerate")
+    r1 = ctx.run([jr, "sparse", sdir], timeout=300)
+    r2 = ctx.run([cr, "-degenerate", ddir], timeout=300)
+    if r1.returncode != 0 or r2.returncode != 0:
+        raise ToolingError("input generators failed: %s %s" % (r1.stderr[-500:], r2.stderr[-500:]))
+    for fn in sorted(os.listdir(sdir)):
+        inputs.append((os.path.join(sdir, fn), "jpeg", {}, "corpus"))       # (encoder-produced: compared across CPU variants too)
+        bydec.setdefault("jpeg", []).append(os.path.join(sdir, fn))
+    for fn in sorted(os.listdir(ddir)):
+        if fn.endswith(".deflate"):
+            inputs.append((os.path.join(ddir, fn), "deflate", {}, "degenerate"))
+            bydec.setdefault("deflate", []).append(os.path.join(ddir, fn))
     # hasher inputs: long enough for the SIMD loops, every tail class sampled
     big = open(os.path.join(stdbuild.REPO, "test", "data", "pi.txt"), "rb").read() if os.path.exists(os.path.join(stdbuild.REPO, "test", "data", "pi.txt")) else bytes(range(256)) * 64
     tails = list(range(64)) if thorough else rng.sample(range(64), 12)
@@ -100,7 +121,7 @@ def run(ctx):
             jobs["plain"].append(bj)
             meta[jid] = {"input": p, "dec": dec, "origin": origin, "schedule": sc, "variant": "base"}
             bid = jid
-            picks = rng.sample(VARIANTS, min(nvar, len(VARIANTS)))
+            picks = VARIANTS if (origin == "degenerate" or "/sparse/" in p) else rng.sample(VARIANTS, min(nvar, len(VARIANTS)))
             for (vn, build, fields, needs_prior) in picks:
                 if build == "plain_nocpu" and dec == "jpeg" and origin != "corpus":
                     continue      # the documented exception: only encoder-produced JPEGs must agree across IDCT variants
